@@ -117,7 +117,17 @@ func genJs(r *rand.Rand, n int, tier string) []Case {
 			sem[js] = map[string]interface{}{"t": "loop", "polls": false}
 		case 4:
 			ejs, ed := tpl.expr(1)
-			js = "var i = 0; while (i < " + jsSlowMark + ") { i = i + 1 }; (" + ejs + ")"
+			switch r.Intn(3) {
+			case 0:
+				// busy for 2.5 limits (calibrated loop)
+				js = "var i = 0; while (i < " + jsSlowMark + ") { i = i + 1 }; (" + ejs + ")"
+			case 1:
+				// asleep in ONE Env.sleep call when the limit expires, evaluates something afterwards
+				js = fmt.Sprintf("Env.sleep(%d); (%s)", lim*5/2, ejs)
+			default:
+				// polls: 50 short Env.sleep calls of limit/20 each
+				js = fmt.Sprintf("var i = 0; while (i < 50) { Env.sleep(%d); i = i + 1 }; (%s)", lim/20, ejs)
+			}
 			sem[js] = map[string]interface{}{"t": "sleep", "ms": float64(lim/1e6) * 2.5, "e": ed}
 		case 5:
 			js = tpl.echoXYZW()
